@@ -32,17 +32,16 @@ def fee_value(p, acct, rate):
     if both_empty: return ('adt', 'std::option::Option', 'None', ())
     return ('adt', 'std::option::Option', 'Some', (('0', ('adt', 'common::FeeInfo', 'FeeInfo', (('account', ('ok', ('rcall', 'addr_validate', (acct,)))), ('rate', rate)))),))
 
-def canon(t):
-    if t[0] == 'adt': return ('adt', t[1], t[2], tuple(sorted((n, canon(x)) for n, x in t[3])))
-    return t
 
 def run(eng, tier):
     oks = eng.paths('execute', 'ok', V_)
     eng.ob(len(oks) > 0, PROP, 'floor-ok-path', V_, 'no successful configuration change path (fail closed)')
     cfg_fields = None
+    from wire import role_type
+    CFG_T = role_type(eng, 'contract_info')      # the configuration record is whatever type is stored under "contract_info"
     for a in eng.s['adts']:
-        if a['def'].endswith('contract_info::ContractInfoV3'): cfg_fields = [f['name'] for f in a['variants'][0]['fields']]
-    eng.ob(cfg_fields is not None and all(m in cfg_fields for m in MARKET) and all(m in cfg_fields for m in MUTABLE), PROP, 'anchor', 'ContractInfoV3', 'configuration record fields not found as expected: %s' % cfg_fields)
+        if a['def'] == CFG_T: cfg_fields = [f['name'] for f in a['variants'][0]['fields']]
+    eng.ob(cfg_fields is not None and all(m in cfg_fields for m in MARKET) and all(m in cfg_fields for m in MUTABLE), PROP, 'anchor', 'configuration-record', 'configuration record fields not found as expected: %s' % cfg_fields)
     for f_ in (cfg_fields or []):
         eng.ob(f_ in MARKET or f_ in MUTABLE, PROP, 'field-classified', f_, 'configuration field %s is neither a market parameter nor a changeable field in the spec (new field?)' % f_)
     seen = collections.Counter()
